@@ -164,6 +164,12 @@ pub fn run(r: &Report) {
                 }
                 Err(e) => r.machinery_error(format!("cannot read the transcript of {}: {}", cfg, e)),
             },
+            Ok(o) if killed_by_signal(&o.status).is_some() => r.fail(
+                "transcripts",
+                None,
+                json!({"configuration": cfg, "signal": killed_by_signal(&o.status), "stderr": String::from_utf8_lossy(&o.stderr).chars().take(600).collect::<String>()}),
+                "the configuration probe was killed by a fatal signal while running the subject (the same driver completes in the other configurations / on the unchanged tree)",
+            ),
             Ok(o) => r.machinery_error(format!("probe {} failed: {}", cfg, String::from_utf8_lossy(&o.stderr))),
             Err(e) => r.machinery_error(format!("cannot run the probe {} ({}): build it with ./check C20", cfg, e)),
         }
@@ -229,6 +235,12 @@ pub fn run(r: &Report) {
 }
 
 /// The no-alloc part of C06: run the skip check inside the probe builds without `alloc`.
+/// Some(signal) if the process died from SIGSEGV / SIGBUS / SIGILL / SIGABRT / SIGFPE.
+fn killed_by_signal(st: &std::process::ExitStatus) -> Option<i32> {
+    use std::os::unix::process::ExitStatusExt;
+    st.signal().filter(|s| [4, 6, 7, 8, 11].contains(s))
+}
+
 pub fn skipcheck(r: &Report) {
     let tier = if r.tier == Tier::Thorough { "thorough" } else { "quick" };
     for cfg in ["none", "none+half", "alloc"] {
@@ -256,6 +268,12 @@ pub fn skipcheck(r: &Report) {
                     }
                 }
             }
+            Ok(o) if killed_by_signal(&o.status).is_some() => r.fail(
+                &sub,
+                None,
+                json!({"configuration": cfg, "signal": killed_by_signal(&o.status), "stderr": String::from_utf8_lossy(&o.stderr).chars().take(600).collect::<String>()}),
+                "the configuration probe was killed by a fatal signal while skipping (stack overflow or memory fault in the subject)",
+            ),
             Ok(o) => r.machinery_error(format!("probe {} skipcheck failed: {}", cfg, String::from_utf8_lossy(&o.stderr))),
             Err(e) => r.machinery_error(format!("cannot run the probe {} ({}): build it with ./check C06", cfg, e)),
         }
